@@ -73,7 +73,11 @@ EXTENDS Integers, Sequences, FiniteSets, TLC
 
 CONSTANTS VerSet,    \* room versions explored (subset of Versions \cup {Unknown})
           Budget,    \* deviations from the base scenario per behaviour
-          Fault      \* "none" or a planted defect of A's mechanics
+          Fault,     \* "none" or a planted defect of A's mechanics
+          Repair     \* design freedom of A (both designs must satisfy every property): FALSE - an answer that is not
+                     \* exactly the countersigned invite is refused; TRUE - A keeps its own event and takes from the
+                     \* answer only B's signature over it, so an answer whose only defects are A's missing signature
+                     \* or a changed "unsigned" is repaired
 
 Versions == {"1", "2", "3", "4", "5", "6", "7", "8", "9", "10", "11", "12",
              "org.matrix.msc3667", "org.matrix.msc3787", "org.matrix.msc4014", "org.matrix.hydra.11"}
@@ -110,7 +114,9 @@ Alts(d) ==
       [] d = "nprev" -> {"twenty", "over"}
       [] d = "remote" -> (RemoteKindsV2 \cup RemoteKindsV3) \ {"honest"}
       [] d = "bview" -> {"known", "joined"}
-Base == [d \in {DimSeq[i] : i \in DOMAIN DimSeq} |-> Default(d)]
+Base == [inviterMem |-> Default("inviterMem"), inviteeMem |-> Default("inviteeMem"), race |-> Default("race"),
+         pl |-> Default("pl"), who |-> Default("who"), env |-> Default("env"), nprev |-> Default("nprev"),
+         remote |-> Default("remote"), bview |-> Default("bview")]
 
 \* every way of deviating from s in at most k of the dimensions dims (each dimension once)
 RECURSIVE Ext(_, _, _)
@@ -134,9 +140,11 @@ Relevant(s) ==
     /\ s.env = "store_err" => (Pseudo(s.ver) /\ ~s.local)
     /\ ~Supported(s.ver) => \A i \in DOMAIN DimSeq : s[DimSeq[i]] = Default(DimSeq[i])
 
-Scenarios ==
-    {s \in UNION {{[ver |-> v, local |-> l, stripped |-> st] @@ x : x \in Ext(Base, DimSeq, Budget)}
-                  : v \in VerSet, l \in BOOLEAN, st \in {"supplied", "generated"}} : Relevant(s)}
+\* the deviations are the same for every version: computed once
+Deviations == Ext(Base, DimSeq, Budget)
+MkScenario(v, l, st, x) ==
+    [ver |-> v, local |-> l, stripped |-> st, inviterMem |-> x.inviterMem, inviteeMem |-> x.inviteeMem, race |-> x.race,
+     pl |-> x.pl, who |-> x.who, env |-> x.env, nprev |-> x.nprev, remote |-> x.remote, bview |-> x.bview]
 
 \* ------------------------------------------------------------------ state
 VARIABLES sc,       \* the scenario
@@ -290,17 +298,25 @@ AnswerDefect(e) ==
     ELSE IF e.sender # "inviter" THEN "sender"
     ELSE IF e.skey # InviteeKey THEN "state_key"
     ELSE IF ~e.same THEN "not_the_event"
-    ELSE IF ~e.sigA THEN "sig_a"
     ELSE IF ~e.sigB THEN "sig_b"
+    ELSE IF ~e.sigA THEN "sig_a"
+    ELSE IF e.irs # strip THEN "unsigned"
     ELSE "none"
+\* v3: the inviter's room key signs what came back
+Countersigned(e) == IF Pseudo(sc.ver) THEN [e EXCEPT !.sigA = TRUE] ELSE e
+\* B's signature stands over the very event A built: A can take that signature and keep its own event
+Repaired(e) == [e EXCEPT !.sigA = TRUE, !.irs = sc.stripped]
+Repairable(e) == AnswerDefect(e) \in {"sig_a", "unsigned"}
+RepairableKind(k) == Repairable(Countersigned(AnswerOf(k)))
 
 Receive ==
     /\ phase = "answered"
     /\ IF ans.k # "event" THEN Fail("remote_failed") /\ UNCHANGED got
-       ELSE LET e == IF Pseudo(sc.ver) THEN [ans.ev EXCEPT !.sigA = TRUE] ELSE ans.ev IN   \* v3: the inviter's key signs
-            IF AnswerDefect(e) # "none" /\ Fault # "return_unchecked" THEN Fail("bad_answer") /\ UNCHANGED got
+       ELSE LET e == Countersigned(ans.ev) IN
+            IF AnswerDefect(e) # "none" /\ ~(Repair /\ Repairable(e)) /\ Fault # "return_unchecked"
+            THEN Fail("bad_answer") /\ UNCHANGED got
             ELSE IF Pseudo(sc.ver) /\ sc.env = "store_err" THEN Fail("store_err") /\ UNCHANGED got
-            ELSE /\ got' = e
+            ELSE /\ got' = IF Repair /\ Fault # "return_unchecked" THEN Repaired(e) ELSE e
                  /\ phase' = IF checked = "" THEN "check" ELSE "return"
                  /\ UNCHANGED out
     /\ UNCHANGED <<sc, strip, built, checked, wire, ans, log>>
@@ -308,13 +324,13 @@ Receive ==
 Return ==
     /\ phase = "return"
     /\ out' = [res |-> "ok", why |-> "none",
-               ev |-> IF wire = <<>> THEN BuiltEv
-                      ELSE IF Fault = "return_unchecked" THEN got
-                      ELSE [got EXCEPT !.irs = strip]]      \* unsigned is not covered by any signature: A's own
+               ev |-> IF wire = <<>> THEN BuiltEv ELSE got]
     /\ phase' = "done"
     /\ UNCHANGED <<sc, strip, built, checked, wire, ans, got, log>>
 
-Init == /\ sc \in Scenarios
+Init == /\ \E v \in VerSet, l \in BOOLEAN, st \in {"supplied", "generated"}, x \in Deviations :
+              /\ sc = MkScenario(v, l, st, x)
+              /\ Relevant(sc) = TRUE
         /\ phase = "prepare" /\ strip = "" /\ built = NoBuilt /\ checked = "" /\ wire = <<>>
         /\ ans = NoAns /\ got = NoEv /\ log = <<>> /\ out = NoOut
 Next == Prepare \/ Precheck \/ Build \/ CheckAllowed \/ Send \/ RemoteHandle \/ RemoteMisbehave \/ NetFail
@@ -336,7 +352,8 @@ Reasons ==
     \cup (IF sc.env = "auth_err" THEN {"auth_err"} ELSE {})
     \cup (IF ~InviteAllowed THEN {"notallowed"} ELSE {})
     \cup (IF ~sc.local /\ (sc.remote = "neterr" \/ (sc.remote = "honest" /\ sc.bview = "joined")) THEN {"remote_failed"} ELSE {})
-    \cup (IF ~sc.local /\ sc.remote \notin {"honest", "neterr", "other_irs"} THEN {"bad_answer"} ELSE {})
+    \cup (IF ~sc.local /\ sc.remote \notin {"honest", "neterr"} /\ ~(Repair /\ RepairableKind(sc.remote))
+          THEN {"bad_answer"} ELSE {})
     \cup (IF Pseudo(sc.ver) /\ ~sc.local /\ sc.env = "store_err" THEN {"store_err"} ELSE {})
 \* reasons that are known before anything can be sent (v3, remote invitee: the auth check comes after the send)
 AfterSend == {"remote_failed", "bad_answer", "store_err"}
